@@ -33,6 +33,11 @@ CONFIGS = {
                                                                                      'max_out': 3}, 7),
     ('aperture n=4 min_size=3, a loaded aperture with one member going down', {'kind': 'aperture', 'n': 4, 'min_size': 3,
                                                                                'ops': ['D', 'C', 'Down'], 'max_out': 7, 'max_down': 1}, 10),
+    ('heap opened with an empty server set, members join and leave later', {'kind': 'heap', 'n': 0, 'extra': 2, 'ops': ['D', 'C', 'Join', 'Leave'],
+                                                                            'max_out': 2, 'max_notifications': 4}, 7),
+    ('aperture opened with an empty server set, members join and leave later', {'kind': 'aperture', 'n': 0, 'extra': 2, 'min_size': 1,
+                                                                                'ops': ['D', 'C', 'Join', 'Leave'], 'max_out': 2,
+                                                                                'max_notifications': 4}, 7),
   ],
   'thorough': [
     ('heap n=7 dispatch/complete', {'kind': 'heap', 'n': 7, 'ops': ['D', 'C'], 'max_out': 7}, 11),
@@ -43,6 +48,11 @@ CONFIGS = {
                                             'max_out': 5, 'max_down': 2, 'advs': [1, 3], 'max_notifications': 2}, 8),
     ('aperture n=3 min_size=1', {'kind': 'aperture', 'n': 3, 'min_size': 1, 'ops': ['D', 'C', 'Down', 'Up', 'Adv'],
                                  'max_out': 5, 'max_down': 2, 'advs': [1, 3]}, 9),
+    ('heap opened with an empty server set, members join, leave and go down later',
+     {'kind': 'heap', 'n': 0, 'extra': 3, 'ops': ['D', 'C', 'Join', 'Leave', 'Down', 'Up'], 'max_out': 3, 'max_notifications': 5, 'max_down': 1}, 9),
+    ('aperture opened with an empty server set, members join, leave and go down later',
+     {'kind': 'aperture', 'n': 0, 'extra': 3, 'min_size': 1, 'ops': ['D', 'C', 'Join', 'Leave', 'Down', 'Up'], 'max_out': 3,
+      'max_notifications': 5, 'max_down': 1}, 9),
   ],
 }
 
